@@ -214,6 +214,12 @@ impl Prop for C03 {
                 out.push(Case::corr(Sexp::list(v)).tag(format!("winstrs-{}", f.2)));
             }
         }
+        // stack ECL (TH10+) files: include lists and raw instructions
+        for _ in 0..120 * scale {
+            let game = *rng.pick(&[truth::Game::Th10, truth::Game::Th11, truth::Game::Th12, truth::Game::Th13, truth::Game::Th14, truth::Game::Th15, truth::Game::Th16, truth::Game::Th17, truth::Game::Th18]);
+            let g = gensrc::gen_ecl10(rng, game);
+            out.push(Case::search(Sexp::app("file", vec![Sexp::atom(g.format.name()), Sexp::atom(format!("{}", g.game)), Sexp::list(vec![]), Sexp::str(g.text)])).tag("file-stack-ecl"));
+        }
         for _ in 0..500 * scale {
             let g = gensrc::gen_any(rng);
             out.push(Case::search(Sexp::app("file", vec![Sexp::atom(g.format.name()), Sexp::atom(format!("{}", g.game)), Sexp::list(g.maps.iter().map(|m| Sexp::str(m.clone())).collect()), Sexp::str(g.text)])).tag(format!("file-{}", g.format.name())));
